@@ -57,6 +57,39 @@ theorem mutIdsL_sub_node {i : Nat} {j : Nat} {k : Kind} {ks : List String} {xs :
 
 /-! ### copy_value -/
 
+/-- the general equation of `copyValue` (every object but a Schema instance with its `__dict__`) -/
+def copyGeneric (j : Nat) (k : Kind) (ks : List String) (xs : List Val) (s : St) : Val × St :=
+  if k.copied then
+    match copyList xs s with
+    | (items', s1) => (.node s1.next k.rebuilt ks items', { s1 with next := s1.next + 1 })
+  else (.node j k ks xs, s)
+
+theorem copyGeneric_spec (j : Nat) (k : Kind) (ks : List String) (xs : List Val) (s : St)
+    (ih : s.next ≤ (copyList xs s).2.next ∧ (copyList xs s).2.writes = s.writes ∧
+      (∀ i ∈ mutIdsL (copyList xs s).1, (s.next ≤ i ∧ i < (copyList xs s).2.next) ∨ i ∈ opqIdsL xs)) :
+    s.next ≤ (copyGeneric j k ks xs s).2.next ∧ (copyGeneric j k ks xs s).2.writes = s.writes ∧
+    (∀ i ∈ (copyGeneric j k ks xs s).1.mutIds,
+      (s.next ≤ i ∧ i < (copyGeneric j k ks xs s).2.next) ∨ i ∈ (Val.node j k ks xs).opqIds) := by
+  unfold copyGeneric
+  split
+  · rename_i hc
+    obtain ⟨h1, h2, h3⟩ := ih
+    refine ⟨by simp; omega, by simpa using h2, ?_⟩
+    intro i hi
+    rcases mutIds_node_sub hi with h | h
+    · left; simp; omega
+    · rcases h3 i h with h | h
+      · left; simp; omega
+      · right; simp [Val.opqIds, hc, h]
+  · rename_i hc
+    refine ⟨Nat.le_refl _, rfl, ?_⟩
+    intro i hi
+    right
+    simp only [Val.opqIds, hc]
+    rcases mutIds_node_sub hi with h | h
+    · simp [h]
+    · simp [h]
+
 mutual
 theorem copyValue_spec (v : Val) (s : St) :
     s.next ≤ (copyValue v s).2.next ∧ (copyValue v s).2.writes = s.writes ∧
@@ -65,27 +98,27 @@ theorem copyValue_spec (v : Val) (s : St) :
   | .none => simp [copyValue, Val.mutIds]
   | .int _ => simp [copyValue, Val.mutIds]
   | .str _ => simp [copyValue, Val.mutIds]
-  | .node j k ks xs =>
-    have ih := copyList_spec xs s
+  | .node j (.inst c true) (k0 :: ks) (x0 :: xs) =>
+    -- a Schema instance: a new plain dict of its items
+    obtain ⟨h1, h2, h3⟩ := copyList_spec xs s
     simp only [copyValue]
-    split
-    · rename_i hc
-      obtain ⟨h1, h2, h3⟩ := ih
-      refine ⟨by simp; omega, by simpa using h2, ?_⟩
-      intro i hi
-      rcases mutIds_node_sub hi with h | h
-      · left; simp; omega
-      · rcases h3 i h with h | h
-        · left; simp; omega
-        · right; simp [Val.opqIds, hc, h]
-    · rename_i hc
-      refine ⟨Nat.le_refl _, rfl, ?_⟩
-      intro i hi
-      right
-      simp only [Val.opqIds, hc]
-      rcases mutIds_node_sub hi with h | h
-      · simp [h]
-      · simp [h]
+    refine ⟨by omega, h2, ?_⟩
+    intro i hi
+    rcases mutIds_node_sub hi with h | h
+    · left; omega
+    · rcases h3 i h with h | h
+      · left; omega
+      · right; simp [Val.opqIds, Kind.copied, opqIdsL, h]
+  | .node j (.inst c true) [] xs => exact copyGeneric_spec j _ [] xs s (copyList_spec xs s)
+  | .node j (.inst c true) (k0 :: ks) [] => exact copyGeneric_spec j _ (k0 :: ks) [] s (copyList_spec [] s)
+  | .node j (.inst c false) ks xs => exact copyGeneric_spec j _ ks xs s (copyList_spec xs s)
+  | .node j .list ks xs => exact copyGeneric_spec j _ ks xs s (copyList_spec xs s)
+  | .node j .tuple ks xs => exact copyGeneric_spec j _ ks xs s (copyList_spec xs s)
+  | .node j .set ks xs => exact copyGeneric_spec j _ ks xs s (copyList_spec xs s)
+  | .node j .fset ks xs => exact copyGeneric_spec j _ ks xs s (copyList_spec xs s)
+  | .node j .dict ks xs => exact copyGeneric_spec j _ ks xs s (copyList_spec xs s)
+  | .node j (.opq t) ks xs => exact copyGeneric_spec j _ ks xs s (copyList_spec xs s)
+  | .node j (.usr b) ks xs => exact copyGeneric_spec j _ ks xs s (copyList_spec xs s)
 theorem copyList_spec (xs : List Val) (s : St) :
     s.next ≤ (copyList xs s).2.next ∧ (copyList xs s).2.writes = s.writes ∧
     (∀ i ∈ mutIdsL (copyList xs s).1, (s.next ≤ i ∧ i < (copyList xs s).2.next) ∨ i ∈ opqIdsL xs) := by
@@ -110,28 +143,28 @@ theorem copyList_spec (xs : List Val) (s : St) :
 end
 
 mutual
-/-- `copy_value` returns "a new value identical to default": equal as a value -/
-theorem copyValue_veq (v : Val) (s : St) : (copyValue v s).1.veq v = true := by
+/-- `copy_value` returns "a new value identical to default": equal as a value (for values without data-class
+instances; a Schema instance comes back as a plain dict of its items) -/
+theorem copyValue_veq (v : Val) (s : St) (hn : v.noInst = true) : (copyValue v s).1.veq v = true := by
   match v with
   | .none => simp [copyValue, Val.veq]
   | .int _ => simp [copyValue, Val.veq]
   | .str _ => simp [copyValue, Val.veq]
-  | .node j k ks xs =>
-    have ih := copyList_veq xs s
-    simp only [copyValue]
-    split
-    · have hb : k.rebuilt.base = k.base := by
-        cases k with
-        | usr b => cases b <;> rfl
-        | _ => rfl
-      simp [Val.veq, ih, hb]
-    · simp [Val.veq, veqL_refl]
-theorem copyList_veq (xs : List Val) (s : St) : veqL (copyList xs s).1 xs = true := by
+  | .node j (.inst c b) ks xs => simp [Val.noInst] at hn
+  | .node j .list ks xs => exact copyGeneric_veq j _ ks xs s (by intro c b h; cases h) (copyList_veq xs s (by simpa [Val.noInst] using hn))
+  | .node j .tuple ks xs => exact copyGeneric_veq j _ ks xs s (by intro c b h; cases h) (copyList_veq xs s (by simpa [Val.noInst] using hn))
+  | .node j .set ks xs => exact copyGeneric_veq j _ ks xs s (by intro c b h; cases h) (copyList_veq xs s (by simpa [Val.noInst] using hn))
+  | .node j .fset ks xs => exact copyGeneric_veq j _ ks xs s (by intro c b h; cases h) (copyList_veq xs s (by simpa [Val.noInst] using hn))
+  | .node j .dict ks xs => exact copyGeneric_veq j _ ks xs s (by intro c b h; cases h) (copyList_veq xs s (by simpa [Val.noInst] using hn))
+  | .node j (.opq t) ks xs => exact copyGeneric_veq j _ ks xs s (by intro c b h; cases h) (copyList_veq xs s (by simpa [Val.noInst] using hn))
+  | .node j (.usr b) ks xs => exact copyGeneric_veq j _ ks xs s (by intro c b h; cases h) (copyList_veq xs s (by simpa [Val.noInst] using hn))
+theorem copyList_veq (xs : List Val) (s : St) (hn : noInstL xs = true) : veqL (copyList xs s).1 xs = true := by
   match xs with
   | [] => simp [copyList, veqL]
   | v :: vs =>
-    have h1 := copyValue_veq v s
-    have h2 := copyList_veq vs (copyValue v s).2
+    simp only [noInstL, Bool.and_eq_true] at hn
+    have h1 := copyValue_veq v s hn.1
+    have h2 := copyList_veq vs (copyValue v s).2 hn.2
     simp [copyList, veqL, h1, h2]
 theorem veq_refl (v : Val) : v.veq v = true := by
   match v with
@@ -143,6 +176,18 @@ theorem veqL_refl (xs : List Val) : veqL xs xs = true := by
   match xs with
   | [] => simp [veqL]
   | v :: vs => simp [veqL, veq_refl v, veqL_refl vs]
+theorem copyGeneric_veq (j : Nat) (k : Kind) (ks : List String) (xs : List Val) (s : St)
+    (hk : ∀ c b, k ≠ .inst c b)
+    (ih : veqL (copyList xs s).1 xs = true) : (copyGeneric j k ks xs s).1.veq (.node j k ks xs) = true := by
+  unfold copyGeneric
+  split
+  · have hb : k.rebuilt.base = k.base := by
+      cases k with
+      | usr b => cases b <;> rfl
+      | inst c b => exact absurd rfl (hk c b)
+      | _ => rfl
+    simp [Val.veq, ih, hb]
+  · simp [Val.veq, veqL_refl]
 end
 
 /-! ### the frame of a computation -/
@@ -224,6 +269,80 @@ theorem mk_fr (k : Kind) (ks : List String) (xs : List Val) (wr : Bool) (s : St)
     rcases mutIds_node_sub hi with h | h
     · right; simp [mk]; omega
     · exact Or.inl h
+
+def bodyIds : Except Err (List String × List Val) → List Nat
+  | .ok p => mutIdsL p.2
+  | .error _ => []
+
+/-- An in-place write hits exactly the object the target value is: `fill` logs `i` for a target `node i …`. -/
+theorem fill_writes (i : Nat) (k : Kind) (ks0 : List String) (xs0 : List Val) (ks : List String) (xs : List Val) (s : St) :
+    (fill (.node i k ks0 xs0) ks xs s).2.writes = i :: s.writes ∧ (fill (.node i k ks0 xs0) ks xs s).2.next = s.next := by
+  simp [fill]
+
+/-- `x = K(); …; x.<stores>`: the container is created by this computation, so the in-place stores into it — logged
+under the identity the variable `x` carries — hit an object allocated here. -/
+theorem newThenFill_fr (k : Kind) (body : St → Except Err (List String × List Val) × St) (A : List Nat)
+    (hb : ∀ s1, Fr A s1 (body s1).2 (bodyIds (body s1).1)) (s : St) :
+    Fr A s (newThenFill k body s).2 (resIds (newThenFill k body s).1) := by
+  have h := hb { next := s.next + 1, writes := s.writes }
+  simp only [newThenFill, mk, Bool.false_eq_true, ↓reduceIte]
+  cases hr : body { next := s.next + 1, writes := s.writes } with
+  | mk r s2 =>
+    rw [hr] at h
+    have hm : s.next + 1 ≤ s2.next := h.mono
+    cases r with
+    | error e =>
+      refine ⟨by simp; omega, ?_, by simp [resIds]⟩
+      intro i hi
+      rcases h.wr i hi with h' | h'
+      · exact Or.inl h'
+      · right; simp at h' ⊢; omega
+    | ok p =>
+      obtain ⟨ks, xs⟩ := p
+      simp only [fill]
+      refine ⟨by simp; omega, ?_, ?_⟩
+      · intro i hi
+        simp only [List.mem_cons] at hi
+        rcases hi with rfl | hi
+        · right; simp; omega
+        · rcases h.wr i hi with h' | h'
+          · exact Or.inl h'
+          · right; simp at h' ⊢; omega
+      · intro i hi
+        simp only [resIds] at hi
+        rcases mutIds_node_sub hi with rfl | hi
+        · right; simp; omega
+        · rcases h.out i (by simpa [bodyIds] using hi) with h' | h'
+          · exact Or.inl h'
+          · right; simp at h' ⊢; omega
+
+/-- the object `newThenFill` hands back is the one it created -/
+theorem newThenFill_id (k : Kind) (body : St → Except Err (List String × List Val) × St) (s : St)
+    (i : Nat) (k' : Kind) (ks : List String) (xs : List Val)
+    (hmono : ∀ s1, s1.next ≤ (body s1).2.next)
+    (h : (newThenFill k body s).1 = .ok (.node i k' ks xs)) :
+    i = s.next ∧ s.next < (newThenFill k body s).2.next := by
+  have hm := hmono { next := s.next + 1, writes := s.writes }
+  simp only [newThenFill, mk, Bool.false_eq_true, ↓reduceIte] at h ⊢
+  cases hr : body { next := s.next + 1, writes := s.writes } with
+  | mk r s2 =>
+    rw [hr] at h hm
+    cases r with
+    | error e => simp at h
+    | ok p =>
+      obtain ⟨ks', xs'⟩ := p
+      simp only [fill, Except.ok.injEq, Val.node.injEq] at h
+      simp only [fill]
+      simp at hm
+      exact ⟨h.1.symm, by omega⟩
+
+theorem items_ids_sub (r : Val) : ∀ i ∈ mutIdsL r.kids, i ∈ r.mutIds := by
+  intro i hi
+  cases r with
+  | node j k ks xs => exact mutIdsL_sub_node hi
+  | none => simp [Val.kids, mutIdsL] at hi
+  | int _ => simp [Val.kids, mutIdsL] at hi
+  | str _ => simp [Val.kids, mutIdsL] at hi
 
 theorem dedup_sub (xs : List Val) : ∀ v ∈ dedup xs, v ∈ xs := by
   induction xs with
@@ -496,6 +615,15 @@ theorem getDefault_fr (ro : ROpts) (d : Dflt) (s : St) :
       simp only [optIds]
       exact (copyValue_fr a s).weaken (fun i h => List.mem_append_right _ (by simp [ROpts.opqIds, hf, h])) (fun _ h => h)
 
+theorem getDefaultAt_fr (defer fdefer : Bool) (ro : ROpts) (d : Dflt) (s : St) :
+    Fr (d.opqIds ++ ro.opqIds) s (getDefaultAt defer fdefer ro d s).2 (optIds (getDefaultAt defer fdefer ro d s).1) := by
+  unfold getDefaultAt
+  split
+  · exact Fr.refl (by simp [optIds])
+  · split
+    · exact Fr.refl (by simp [optIds])
+    · exact getDefault_fr ro d s
+
 /-! ### list traversals -/
 
 theorem mapC_fr (f : Val → Comp) (B : List Nat) (xs : List Val)
@@ -628,9 +756,9 @@ theorem fieldsFF_fr (rec : Ty → Val → Comp) (ro : ROpts) (A : List Nat) (ks 
       simp only
       split
       · exact Fr.refl (by simp [resIdsKV])
-      · have h1 := (getDefault_fr ro f.dflt s).weaken
+      · have h1 := (getDefaultAt_fr false f.defer ro f.dflt s).weaken
           (fun i hi => by rcases List.mem_append.mp hi with h | h; exact hB f (by simp) i h; exact hro i h) (fun _ h => h)
-        cases hg : getDefault ro f.dflt s with
+        cases hg : getDefaultAt false f.defer ro f.dflt s with
         | mk od s1 =>
           rw [hg] at h1
           cases od with
@@ -701,9 +829,9 @@ theorem defaultLoop_fr (ro : ROpts) (A : List Nat) (have_ : List String) (fields
     · exact ih' s
     · split
       · exact Fr.refl (by simp [resIdsKV])
-      · have h1 := (getDefault_fr ro f.dflt s).weaken
+      · have h1 := (getDefaultAt_fr false f.defer ro f.dflt s).weaken
           (fun i hi => by rcases List.mem_append.mp hi with h | h; exact hB f (by simp) i h; exact hro i h) (fun _ h => h)
-        cases hg : getDefault ro f.dflt s with
+        cases hg : getDefaultAt false f.defer ro f.dflt s with
         | mk od s1 =>
           rw [hg] at h1
           cases od with
@@ -763,46 +891,59 @@ theorem filter_map_snd_sub (p : String × Val → Bool) (vals : List (String × 
   obtain ⟨q, hq, rfl⟩ := List.mem_map.mp hv
   exact mem_mutIdsL.mpr ⟨q.2, List.mem_map.mpr ⟨q, (List.mem_filter.mp hq).1, rfl⟩, h⟩
 
-theorem mkInstance_fr (k : Nat) (d : Decl) (vals : List (String × Val)) (s : St) :
-    Fr (mutIdsL (vals.map (·.2))) s (mkInstance k d vals s).2 (resIds (mkInstance k d vals s).1) := by
-  refine ⟨by simp [mkInstance], ?_, ?_⟩
-  · intro i hi
-    simp only [mkInstance, List.mem_cons] at hi
-    rcases hi with h | h | h | h | h
-    · right; simp [mkInstance]; omega
-    · right; simp [mkInstance]; omega
-    · right; simp [mkInstance]; omega
-    · right; simp [mkInstance]; omega
-    · exact Or.inl h
-  · intro i hi
-    simp only [mkInstance, resIds] at hi
-    rcases mutIds_node_sub hi with h | h
-    · right; simp [mkInstance]; omega
-    · simp only [mutIdsL, List.mem_append] at h
-      rcases h with h | h
-      · rcases mutIds_node_sub h with h | h
-        · right; simp [mkInstance]; omega
-        · exact Or.inl h
-      · left
-        split at h
-        · exact filter_map_snd_sub _ vals i h
-        · simp [mutIdsL] at h
-
 theorem mkBinding_fr (vals : List (String × Val)) (s : St) :
-    Fr (mutIdsL (vals.map (·.2))) s (mkBinding vals s).2 (resIds (mkBinding vals s).1) := by
-  refine ⟨by simp [mkBinding], ?_, ?_⟩
-  · intro i hi
-    simp only [mkBinding, List.mem_cons] at hi
-    rcases hi with h | h | h | h
-    · right; simp [mkBinding]; omega
-    · right; simp [mkBinding]; omega
-    · right; simp [mkBinding]; omega
-    · exact Or.inl h
-  · intro i hi
-    simp only [mkBinding, resIds] at hi
-    rcases mutIds_node_sub hi with h | h
-    · right; simp [mkBinding]; omega
-    · exact Or.inl h
+    Fr (mutIdsL (vals.map (·.2))) s (mkBinding vals s).2 (resIds (mkBinding vals s).1) :=
+  mk_fr .dict _ _ false s
+
+theorem parseInto_fr (rec : Ty → Val → Comp) (ro : ROpts) (A : List Nat) (d : Decl) (ks : List String) (xs : List Val)
+    (hx : ∀ v ∈ xs, ∀ i ∈ v.mutIds, i ∈ A)
+    (hrec : ∀ t v, (∀ i ∈ v.mutIds, i ∈ A) → ∀ s, Fr A s (rec t v s).2 (resIds (rec t v s).1))
+    (hro : ∀ i ∈ ro.opqIds, i ∈ A)
+    (hB : ∀ f ∈ d.fields, ∀ i ∈ f.dflt.opqIds, i ∈ A) (s : St) :
+    Fr A s (parseInto rec ro d ks xs s).2 (resIds (parseInto rec ro d ks xs s).1) := by
+  unfold parseInto
+  apply newThenFill_fr
+  intro s1
+  have h := parseData_fr rec ro A d ks xs hx hrec hro hB s1
+  cases hr : parseData rec ro d ks xs s1 with
+  | mk r s2 =>
+    rw [hr] at h
+    cases r with
+    | error e => exact h.err
+    | ok vals => simpa [bodyIds, resIdsKV] using h
+
+theorem parseInto_id (rec : Ty → Val → Comp) (ro : ROpts) (A : List Nat) (d : Decl) (ks : List String) (xs : List Val)
+    (hx : ∀ v ∈ xs, ∀ i ∈ v.mutIds, i ∈ A)
+    (hrec : ∀ t v, (∀ i ∈ v.mutIds, i ∈ A) → ∀ s, Fr A s (rec t v s).2 (resIds (rec t v s).1))
+    (hro : ∀ i ∈ ro.opqIds, i ∈ A)
+    (hB : ∀ f ∈ d.fields, ∀ i ∈ f.dflt.opqIds, i ∈ A) (s : St)
+    (i : Nat) (k' : Kind) (ks' : List String) (xs' : List Val)
+    (h : (parseInto rec ro d ks xs s).1 = .ok (.node i k' ks' xs')) :
+    i = s.next ∧ s.next < (parseInto rec ro d ks xs s).2.next := by
+  unfold parseInto at h ⊢
+  refine newThenFill_id .dict _ s i k' ks' xs' ?_ h
+  intro s1
+  have hmn := (parseData_fr rec ro A d ks xs hx hrec hro hB s1).mono
+  cases hpd : parseData rec ro d ks xs s1 with
+  | mk r' s' =>
+    rw [hpd] at hmn
+    cases r' <;> simpa using hmn
+
+theorem itemsOf_ids (v : Val) : ∀ i ∈ mutIdsL (itemsOf v).2, i ∈ v.mutIds := by
+  intro i hi
+  cases v with
+  | node j k ks xs => exact mutIdsL_sub_node hi
+  | none => simp [itemsOf, mutIdsL] at hi
+  | int _ => simp [itemsOf, mutIdsL] at hi
+  | str _ => simp [itemsOf, mutIdsL] at hi
+
+theorem zip_filter_snd_sub (p : String × Val → Bool) (ks : List String) (xs : List Val) :
+    ∀ i ∈ mutIdsL (((ks.zip xs).filter p).map (·.2)), i ∈ mutIdsL xs := by
+  intro i hi
+  obtain ⟨v, hv, h⟩ := mem_mutIdsL.mp hi
+  obtain ⟨q, hq, rfl⟩ := List.mem_map.mp hv
+  have hz : q ∈ ks.zip xs := (List.mem_filter.mp hq).1
+  exact mem_mutIdsL.mpr ⟨q.2, (List.of_mem_zip hz).2, h⟩
 
 theorem leak_of_field {E : Env} {k : Nat} {d : Decl} (hk : E[k]? = some d) :
     ∀ f ∈ d.fields, ∀ i ∈ f.dflt.opqIds, i ∈ E.leak := by
@@ -813,6 +954,8 @@ theorem leak_of_field {E : Env} {k : Nat} {d : Decl} (hk : E[k]? = some d) :
   simp only [Env.dfltVals, Decl.dfltVals, List.mem_flatMap]
   exact ⟨d, hd, f, hf, hv⟩
 
+/-- the objects an instance creation writes in place — the call's kwargs, the new instance, its `__dict__`, the parser's
+result dict — are reached through the variables that hold them; every one of them was created by this very call -/
 theorem initWith_fr (rec : Ty → Val → Comp) (ro : ROpts) (A : List Nat) (E : Env) (k : Nat) (ks : List String) (xs : List Val)
     (hx : ∀ v ∈ xs, ∀ i ∈ v.mutIds, i ∈ A)
     (hrec : ∀ t v, (∀ i ∈ v.mutIds, i ∈ A) → ∀ s, Fr A s (rec t v s).2 (resIds (rec t v s).1))
@@ -826,16 +969,68 @@ theorem initWith_fr (rec : Ty → Val → Comp) (ro : ROpts) (A : List Nat) (E :
     simp only
     split
     · exact Fr.refl (by simp [resIds])
-    · have h1 := parseData_fr rec ro A d ks xs hx hrec hro (fun f hf i hi => hleak i (leak_of_field hk f hf i hi)) s
-      cases hr : parseData rec ro d ks xs s with
-      | mk r s1 =>
-        rw [hr] at h1
+    · -- kwargs, inst, inst.__dict__ are plain allocations (+ the stores into kwargs)
+      simp only [newThenFill, mk, fill, itemsOf, Bool.false_eq_true, ↓reduceIte]
+      have hp := parseInto_fr rec ro A d ks xs hx hrec hro
+        (fun f hf i hi => hleak i (leak_of_field hk f hf i hi))
+        { next := s.next + 1 + 1 + 1, writes := s.next :: s.writes }
+      cases hr : parseInto rec ro d ks xs { next := s.next + 1 + 1 + 1, writes := s.next :: s.writes } with
+      | mk r s4 =>
+        rw [hr] at hp
+        have hm : s.next + 3 ≤ s4.next := by have := hp.mono; simp at this; omega
+        have hwr : ∀ i ∈ s4.writes, i ∈ s.writes ∨ (s.next ≤ i ∧ i < s4.next) := by
+          intro i hi
+          rcases hp.wr i hi with h | h
+          · simp only [List.mem_cons] at h
+            rcases h with rfl | h
+            · right; omega
+            · exact Or.inl h
+          · right; simp at h; omega
         cases r with
-        | error e => exact h1.err
-        | ok vals =>
-          simp only
-          have h2 := mkInstance_fr k d vals s1
-          exact h1.comp (h2.weaken (fun i hi => List.mem_append_right _ (by simpa [resIdsKV] using hi)) (fun _ h => h))
+        | error e => exact ⟨by simp; omega, by simpa using hwr, by simp [resIds]⟩
+        | ok values =>
+          have hvals : ∀ i ∈ values.mutIds, i ∈ A ∨ (s.next ≤ i ∧ i < s4.next) := by
+            intro i hi
+            rcases hp.out i (by simpa [resIds] using hi) with h | h
+            · exact Or.inl h
+            · right; simp at h; omega
+          cases values with
+          | none => exact ⟨by simp; omega, by simpa using hwr, by simp [resIds]⟩
+          | int _ => exact ⟨by simp; omega, by simpa using hwr, by simp [resIds]⟩
+          | str _ => exact ⟨by simp; omega, by simpa using hwr, by simp [resIds]⟩
+          | node vi vk vks vxs =>
+            simp only
+            have hvx : ∀ i ∈ mutIdsL vxs, i ∈ A ∨ (s.next ≤ i ∧ i < s4.next) :=
+              fun i hi => hvals i (mutIdsL_sub_node hi)
+            refine ⟨by simp; omega, ?_, ?_⟩
+            · intro i hi
+              simp only [List.mem_cons] at hi
+              rcases hi with rfl | rfl | rfl | hi
+              · right; simp; omega
+              · right; simp; omega
+              · -- `values.pop(key)`: `values` is the dict `parseInto` created in this call
+                have hid := parseInto_id rec ro A d ks xs hx hrec hro
+                  (fun f hf i hi => hleak i (leak_of_field hk f hf i hi))
+                  { next := s.next + 1 + 1 + 1, writes := s.next :: s.writes } i vk vks vxs (by rw [hr])
+                rw [hr] at hid
+                right; simp at hid ⊢; omega
+              · exact hwr i hi
+            · intro i hi
+              simp only [resIds] at hi
+              rcases mutIds_node_sub hi with rfl | hi
+              · right; simp; omega
+              · simp only [mutIdsL, List.mem_append] at hi
+                rcases hi with hi | hi
+                · rcases mutIds_node_sub hi with rfl | hi
+                  · right; simp; omega
+                  · rcases hvx i hi with h | h
+                    · exact Or.inl h
+                    · right; simp; omega
+                · split at hi
+                  · rcases hvx i (zip_filter_snd_sub _ vks vxs i hi) with h | h
+                    · exact Or.inl h
+                    · right; simp; omega
+                  · simp [mutIdsL] at hi
 
 /-! ### the transformer -/
 
@@ -850,34 +1045,54 @@ theorem convInt_ids (o : Opts) (v : Val) : resIds (convInt o v) = [] := by
       · split <;> simp [resIds]
   · simp [resIds]
 
-/-- `result = []` followed by filling it element by element -/
-theorem rebuild_fr (A B : List Nat) (f : Val → Comp) (items : List Val) (s1 : St)
-    (hitems : ∀ i ∈ mutIdsL items, i ∈ A) (hB : ∀ i ∈ B, i ∈ A)
-    (hf : ∀ v ∈ items, ∀ s, Fr (v.mutIds ++ B) s (f v s).2 (resIds (f v s).1)) :
-    Fr A s1 (mapC f items { next := s1.next + 1, writes := s1.next :: s1.writes }).2
-      (s1.next :: resIdsL (mapC f items { next := s1.next + 1, writes := s1.next :: s1.writes }).1) := by
-  have ha : Fr A s1 { next := s1.next + 1, writes := s1.next :: s1.writes } [s1.next] :=
-    ⟨by simp, by intro i hi; simp at hi; rcases hi with h | h; right; simp; omega; exact Or.inl h,
-     by intro i hi; simp at hi; right; simp; omega⟩
-  have hm := (mapC_fr f B items hf { next := s1.next + 1, writes := s1.next :: s1.writes }).weaken
-    (A' := A) (fun i hi => by rcases List.mem_append.mp hi with h | h; exact hitems i h; exact hB i h) (fun _ h => h)
-  exact ha.seq hm
+theorem guardL_fr (L : Ty → Cid) (f : Ty → Val → Comp) (A : List Nat) (ty : Ty) (v : Val) (s : St)
+    (h : Fr A s (f ty v s).2 (resIds (f ty v s).1)) :
+    Fr A s (guardL L f ty v s).2 (resIds (guardL L f ty v s).1) := by
+  unfold guardL
+  split
+  · exact h
+  · exact Fr.refl (by simp [resIds])
 
-theorem rebuildZ_fr (A B : List Nat) (f : Ty → Val → Comp) (ts : List Ty) (items : List Val) (s1 : St)
+/-- the body of a container rebuild: convert every item -/
+theorem mapBody_fr (A B : List Nat) (f : Val → Comp) (items : List Val) (ks : List String)
     (hitems : ∀ i ∈ mutIdsL items, i ∈ A) (hB : ∀ i ∈ B, i ∈ A)
-    (hf : ∀ t, ∀ v ∈ items, ∀ s, Fr (v.mutIds ++ B) s (f t v s).2 (resIds (f t v s).1)) :
-    Fr A s1 (zipC f ts items { next := s1.next + 1, writes := s1.next :: s1.writes }).2
-      (s1.next :: resIdsL (zipC f ts items { next := s1.next + 1, writes := s1.next :: s1.writes }).1) := by
-  have ha : Fr A s1 { next := s1.next + 1, writes := s1.next :: s1.writes } [s1.next] :=
-    ⟨by simp, by intro i hi; simp at hi; rcases hi with h | h; right; simp; omega; exact Or.inl h,
-     by intro i hi; simp at hi; right; simp; omega⟩
-  have hm := (zipC_fr f B ts items hf { next := s1.next + 1, writes := s1.next :: s1.writes }).weaken
-    (A' := A) (fun i hi => by rcases List.mem_append.mp hi with h | h; exact hitems i h; exact hB i h) (fun _ h => h)
-  exact ha.seq hm
+    (hf : ∀ v ∈ items, ∀ s, Fr (v.mutIds ++ B) s (f v s).2 (resIds (f v s).1)) (s2 : St) :
+    Fr A s2 (match mapC f items s2 with
+        | (.error e, s3) => ((.error e, s3) : Except Err (List String × List Val) × St)
+        | (.ok items', s3) => (.ok (ks, items'), s3)).2
+      (bodyIds (match mapC f items s2 with
+        | (.error e, s3) => ((.error e, s3) : Except Err (List String × List Val) × St)
+        | (.ok items', s3) => (.ok (ks, items'), s3)).1) := by
+  have hm := (mapC_fr f B items hf s2).weaken (A' := A)
+    (fun i hi => by rcases List.mem_append.mp hi with h | h; exact hitems i h; exact hB i h) (fun _ h => h)
+  cases hr : mapC f items s2 with
+  | mk r s3 =>
+    rw [hr] at hm
+    cases r with
+    | error e => exact hm.err
+    | ok items' => simpa [bodyIds, resIdsL] using hm
 
-theorem conv_fr (E : Env) (A : List Nat) (hleak : ∀ i ∈ E.leak, i ∈ A) :
+theorem zipBody_fr (A B : List Nat) (f : Ty → Val → Comp) (ts : List Ty) (items : List Val)
+    (hitems : ∀ i ∈ mutIdsL items, i ∈ A) (hB : ∀ i ∈ B, i ∈ A)
+    (hf : ∀ t, ∀ v ∈ items, ∀ s, Fr (v.mutIds ++ B) s (f t v s).2 (resIds (f t v s).1)) (s2 : St) :
+    Fr A s2 (match zipC f ts items s2 with
+        | (.error e, s3) => ((.error e, s3) : Except Err (List String × List Val) × St)
+        | (.ok items', s3) => (.ok ([], items'), s3)).2
+      (bodyIds (match zipC f ts items s2 with
+        | (.error e, s3) => ((.error e, s3) : Except Err (List String × List Val) × St)
+        | (.ok items', s3) => (.ok ([], items'), s3)).1) := by
+  have hm := (zipC_fr f B ts items hf s2).weaken (A' := A)
+    (fun i hi => by rcases List.mem_append.mp hi with h | h; exact hitems i h; exact hB i h) (fun _ h => h)
+  cases hr : zipC f ts items s2 with
+  | mk r s3 =>
+    rw [hr] at hm
+    cases r with
+    | error e => exact hm.err
+    | ok items' => simpa [bodyIds, resIdsL] using hm
+
+theorem conv_fr (L : Ty → Cid) (E : Env) (A : List Nat) (hleak : ∀ i ∈ E.leak, i ∈ A) :
     ∀ (fuel : Nat) (o : Opts) (ty : Ty) (v : Val), (∀ i ∈ v.mutIds, i ∈ A) → ∀ s,
-      Fr A s (conv E o fuel ty v s).2 (resIds (conv E o fuel ty v s).1) := by
+      Fr A s (conv L E o fuel ty v s).2 (resIds (conv L E o fuel ty v s).1) := by
   intro fuel
   induction fuel generalizing A with
   | zero => intro o ty v hv s; exact Fr.refl (by simp [conv, resIds])
@@ -885,11 +1100,11 @@ theorem conv_fr (E : Env) (A : List Nat) (hleak : ∀ i ∈ E.leak, i ∈ A) :
     intro o ty v hv s
     -- the recursive call, in the two shapes the traversals want
     have ihB : ∀ (o : Opts) (t : Ty) (w : Val) (s : St),
-        Fr (w.mutIds ++ E.leak) s (conv E o fuel t w s).2 (resIds (conv E o fuel t w s).1) :=
+        Fr (w.mutIds ++ E.leak) s (conv L E o fuel t w s).2 (resIds (conv L E o fuel t w s).1) :=
       fun o t w s => ih (w.mutIds ++ E.leak) (fun i h => List.mem_append_right _ h) o t w
         (fun i h => List.mem_append_left _ h) s
     have ihA : ∀ (o : Opts) (t : Ty) (w : Val), (∀ i ∈ w.mutIds, i ∈ A) → ∀ s,
-        Fr A s (conv E o fuel t w s).2 (resIds (conv E o fuel t w s).1) := fun o t w hw s => ih A hleak o t w hw s
+        Fr A s (conv L E o fuel t w s).2 (resIds (conv L E o fuel t w s).1) := fun o t w hw s => ih A hleak o t w hw s
     cases ty with
     | any => exact Fr.refl (by simpa [conv, resIds] using hv)
     | int => exact Fr.refl (by simp [conv, convInt_ids])
@@ -911,25 +1126,23 @@ theorem conv_fr (E : Env) (A : List Nat) (hleak : ∀ i ∈ E.leak, i ∈ A) :
             simp only
             have hit : ∀ i ∈ mutIdsL items, i ∈ A ++ resIds (Except.ok (Val.node j k' ks items)) :=
               fun i hi => List.mem_append_right _ (by simp only [resIds]; exact mutIdsL_sub_node hi)
-            have h2 := rebuild_fr (A ++ resIds (Except.ok (Val.node j k' ks items))) E.leak (conv E o fuel t) items s1 hit
-              (fun i hi => List.mem_append_left _ (hleak i hi)) (fun w _ s => ihB o t w s)
+            have h2 := newThenFill_fr .list _ (A ++ resIds (Except.ok (Val.node j k' ks items)))
+              (mapBody_fr (A ++ resIds (Except.ok (Val.node j k' ks items))) E.leak (conv L E o fuel t) items [] hit
+                (fun i hi => List.mem_append_left _ (hleak i hi)) (fun w _ s => ihB o t w s)) s1
             have h12 := h1.comp h2
-            cases hm : mapC (conv E o fuel t) items { next := s1.next + 1, writes := s1.next :: s1.writes } with
+            cases hm : newThenFill .list (fun s2 => match mapC (conv L E o fuel t) items s2 with
+                | (.error e, s3) => (.error e, s3)
+                | (.ok items', s3) => (.ok ([], items'), s3)) s1 with
             | mk r3 s3 =>
               rw [hm] at h12
               cases r3 with
               | error e => exact h12.err
-              | ok items' =>
+              | ok r =>
                 simp only
                 split
-                · refine h12.weaken (fun _ h => h) ?_
-                  intro i hi
-                  simp only [resIds] at hi
-                  rcases mutIds_node_sub hi with h | h
-                  · simp [h]
-                  · simp [resIdsL, h]
-                · have h3 := mkSeq_fr k items' false s3
-                  exact h12.comp (h3.weaken (fun i hi => List.mem_append_right _ (by simp [resIdsL, hi])) (fun _ h => h))
+                · exact h12
+                · have h3 := mkSeq_fr k r.kids false s3
+                  exact h12.comp (h3.weaken (fun i hi => List.mem_append_right _ (by simpa [resIds] using items_ids_sub r i hi)) (fun _ h => h))
     | map t =>
       simp only [conv]
       have h1 := (convBare_fr o .dict v s).weaken hv (fun _ h => h)
@@ -947,22 +1160,10 @@ theorem conv_fr (E : Env) (A : List Nat) (hleak : ∀ i ∈ E.leak, i ∈ A) :
             simp only
             have hit : ∀ i ∈ mutIdsL items, i ∈ A ++ resIds (Except.ok (Val.node j k' ks items)) :=
               fun i hi => List.mem_append_right _ (by simp only [resIds]; exact mutIdsL_sub_node hi)
-            have h2 := rebuild_fr (A ++ resIds (Except.ok (Val.node j k' ks items))) E.leak (conv E o fuel t) items s1 hit
-              (fun i hi => List.mem_append_left _ (hleak i hi)) (fun w _ s => ihB o t w s)
-            have h12 := h1.comp h2
-            cases hm : mapC (conv E o fuel t) items { next := s1.next + 1, writes := s1.next :: s1.writes } with
-            | mk r3 s3 =>
-              rw [hm] at h12
-              cases r3 with
-              | error e => exact h12.err
-              | ok items' =>
-                simp only
-                refine h12.weaken (fun _ h => h) ?_
-                intro i hi
-                simp only [resIds] at hi
-                rcases mutIds_node_sub hi with h | h
-                · simp [h]
-                · simp [resIdsL, h]
+            have h2 := newThenFill_fr .dict _ (A ++ resIds (Except.ok (Val.node j k' ks items)))
+              (mapBody_fr (A ++ resIds (Except.ok (Val.node j k' ks items))) E.leak (conv L E o fuel t) items ks hit
+                (fun i hi => List.mem_append_left _ (hleak i hi)) (fun w _ s => ihB o t w s)) s1
+            exact h1.comp h2
     | tup ts =>
       simp only [conv]
       split
@@ -982,22 +1183,25 @@ theorem conv_fr (E : Env) (A : List Nat) (hleak : ∀ i ∈ E.leak, i ∈ A) :
               simp only
               have hit : ∀ i ∈ mutIdsL items, i ∈ A ++ resIds (Except.ok (Val.node j k' ks items)) :=
                 fun i hi => List.mem_append_right _ (by simp only [resIds]; exact mutIdsL_sub_node hi)
-              have h2 := rebuildZ_fr (A ++ resIds (Except.ok (Val.node j k' ks items))) E.leak (conv E o fuel) ts items s1 hit
-                (fun i hi => List.mem_append_left _ (hleak i hi)) (fun t w _ s => ihB o t w s)
+              have h2 := newThenFill_fr .list _ (A ++ resIds (Except.ok (Val.node j k' ks items)))
+                (zipBody_fr (A ++ resIds (Except.ok (Val.node j k' ks items))) E.leak (conv L E o fuel) ts items hit
+                  (fun i hi => List.mem_append_left _ (hleak i hi)) (fun t w _ s => ihB o t w s)) s1
               have h12 := h1.comp h2
-              cases hm : zipC (conv E o fuel) ts items { next := s1.next + 1, writes := s1.next :: s1.writes } with
+              cases hm : newThenFill .list (fun s2 => match zipC (conv L E o fuel) ts items s2 with
+                  | (.error e, s3) => (.error e, s3)
+                  | (.ok items', s3) => (.ok ([], items'), s3)) s1 with
               | mk r3 s3 =>
                 rw [hm] at h12
                 cases r3 with
                 | error e => exact h12.err
-                | ok items' =>
+                | ok r =>
                   simp only
-                  have h3 := mk_fr .tuple [] items' false s3
-                  exact h12.comp (h3.weaken (fun i hi => List.mem_append_right _ (by simp [resIdsL, hi])) (fun _ h => h))
+                  have h3 := mk_fr .tuple [] r.kids false s3
+                  exact h12.comp (h3.weaken (fun i hi => List.mem_append_right _ (by simpa [resIds] using items_ids_sub r i hi)) (fun _ h => h))
     | con t lg mx mn =>
       simp only [conv]
       have h1 := ihA o t v hv s
-      cases hr : conv E o fuel t v s with
+      cases hr : conv L E o fuel t v s with
       | mk r s1 =>
         rw [hr] at h1
         cases r with
@@ -1016,8 +1220,8 @@ theorem conv_fr (E : Env) (A : List Nat) (hleak : ∀ i ∈ E.leak, i ∈ A) :
     | data k =>
       simp only [conv]
       have hinit : ∀ (ks : List String) (xs : List Val), (∀ w ∈ xs, ∀ i ∈ w.mutIds, i ∈ A) →
-          Fr A s (initWith (conv E {} fuel) {} E k ks xs s).2 (resIds (initWith (conv E {} fuel) {} E k ks xs s).1) :=
-        fun ks xs hx => initWith_fr (conv E {} fuel) {} A E k ks xs hx (fun t w hw s => ihA {} t w hw s)
+          Fr A s (initWith (guardL L (conv L E {} fuel)) {} E k ks xs s).2 (resIds (initWith (guardL L (conv L E {} fuel)) {} E k ks xs s).1) :=
+        fun ks xs hx => initWith_fr (guardL L (conv L E {} fuel)) {} A E k ks xs hx (fun t w hw s => guardL_fr L _ A t w s (ihA {} t w hw s))
           (by simp [ROpts.opqIds]) hleak s
       cases v with
       | none => exact Fr.refl (by simp [resIds])
@@ -1066,56 +1270,66 @@ theorem conv_fr (E : Env) (A : List Nat) (hleak : ∀ i ∈ E.leak, i ∈ A) :
 
 /-! ### one parse through the public API -/
 
-theorem callWith_fr (optsOf : List (Option Opts) → Nat → Opts) (ro : ROpts) (E : Env) (A : List Nat)
+theorem zip_snd_ids (ks : List String) (xs : List Val) :
+    ∀ i ∈ mutIdsL ((ks.zip xs).map (·.2)), i ∈ mutIdsL xs := by
+  intro i hi
+  obtain ⟨v, hv, h⟩ := mem_mutIdsL.mp hi
+  obtain ⟨q, hq, rfl⟩ := List.mem_map.mp hv
+  exact mem_mutIdsL.mpr ⟨q.2, (List.of_mem_zip hq).2, h⟩
+
+theorem callWith_fr (optsOf : List (Option Opts) → Nat → Opts) (L : Ty → Cid) (rb : Bool) (ro : ROpts) (E : Env) (A : List Nat)
     (hleak : ∀ i ∈ E.leak, i ∈ A) (hro : ∀ i ∈ ro.opqIds, i ∈ A) (target wrapper : Nat) (ks : List String) (xs : List Val)
     (hx : ∀ v ∈ xs, ∀ i ∈ v.mutIds, i ∈ A) (s : St) :
-    Fr A s (callWith optsOf ro E target wrapper ks xs s).2 (resIds (callWith optsOf ro E target wrapper ks xs s).1) := by
+    Fr A s (callWith optsOf L rb ro E target wrapper ks xs s).2 (resIds (callWith optsOf L rb ro E target wrapper ks xs s).1) := by
   simp only [callWith]
   cases hk : E[target]? with
   | none => exact Fr.refl (by simp [resIds])
   | some d =>
     simp only
     split
-    · have h1 := parseData_fr (conv E (optsOf d.wrappers wrapper) fuelDefault) {} A { d with dfs := false } ks xs hx
-        (fun t w hw s => conv_fr E A hleak fuelDefault _ t w hw s) (by simp [ROpts.opqIds])
+    · exact Fr.refl (by simp [resIds])
+    split
+    · have h1 := parseInto_fr (guardL L (conv L E (optsOf d.wrappers wrapper) fuelDefault)) {} A { d with dfs := false } ks xs hx
+        (fun t w hw s => guardL_fr L _ A t w s (conv_fr L E A hleak fuelDefault _ t w hw s)) (by simp [ROpts.opqIds])
         (fun f hf i hi => hleak i (leak_of_field hk f hf i hi)) s
-      cases hr : parseData (conv E (optsOf d.wrappers wrapper) fuelDefault) {} { d with dfs := false } ks xs s with
+      cases hr : parseInto (guardL L (conv L E (optsOf d.wrappers wrapper) fuelDefault)) {} { d with dfs := false } ks xs s with
       | mk r s1 =>
         rw [hr] at h1
         cases r with
         | error e => exact h1.err
-        | ok vals =>
+        | ok pk =>
           simp only
-          have hb : ∀ s2, Fr (A ++ resIdsKV (Except.ok vals)) s2 (mkBinding vals s2).2 (resIds (mkBinding vals s2).1) :=
-            fun s2 => (mkBinding_fr vals s2).weaken
-              (fun i hi => List.mem_append_right _ (by simpa [resIdsKV] using hi)) (fun _ h => h)
+          have hpk : ∀ i ∈ mutIdsL (((itemsOf pk).1.zip (itemsOf pk).2).map (·.2)), i ∈ A ++ resIds (Except.ok pk) :=
+            fun i hi => List.mem_append_right _ (by
+              simp only [resIds]; exact itemsOf_ids pk i (zip_snd_ids _ _ i hi))
+          have hb : ∀ s2, Fr (A ++ resIds (Except.ok pk)) s2 (mkBinding ((itemsOf pk).1.zip (itemsOf pk).2) s2).2
+              (resIds (mkBinding ((itemsOf pk).1.zip (itemsOf pk).2) s2).1) :=
+            fun s2 => (mkBinding_fr _ s2).weaken hpk (fun _ h => h)
           cases hret : d.ret with
           | none => exact h1.comp (hb s1)
           | some rt =>
             obtain ⟨fname, ty⟩ := rt
             simp only
-            cases hl : lookupKV fname (vals.map (·.1)) (vals.map (·.2)) with
+            cases hl : lookupKV fname (((itemsOf pk).1.zip (itemsOf pk).2).map (·.1)) (((itemsOf pk).1.zip (itemsOf pk).2).map (·.2)) with
             | none => exact h1.comp (hb s1)
             | some v =>
               simp only
-              have hv : ∀ i ∈ v.mutIds, i ∈ A ++ resIdsKV (Except.ok vals) := fun i hi =>
-                List.mem_append_right _ (by
-                  simp only [resIdsKV]
-                  exact mem_mutIdsL.mpr ⟨v, lookupKV_mem _ _ _ _ hl, hi⟩)
-              have h2 := conv_fr E (A ++ resIdsKV (Except.ok vals)) (fun i hi => List.mem_append_left _ (hleak i hi))
-                fuelDefault (optsOf d.wrappers wrapper) ty v hv s1
-              cases hc : conv E (optsOf d.wrappers wrapper) fuelDefault ty v s1 with
+              have hv : ∀ i ∈ v.mutIds, i ∈ A ++ resIds (Except.ok pk) := fun i hi =>
+                hpk i (mem_mutIdsL.mpr ⟨v, lookupKV_mem _ _ _ _ hl, hi⟩)
+              have h2 := guardL_fr L _ _ ty v s1 (conv_fr L E (A ++ resIds (Except.ok pk)) (fun i hi => List.mem_append_left _ (hleak i hi))
+                fuelDefault (optsOf d.wrappers wrapper) ty v hv s1)
+              cases hc : guardL L (conv L E (optsOf d.wrappers wrapper) fuelDefault) ty v s1 with
               | mk r2 s2 =>
                 rw [hc] at h2
                 cases r2 with
                 | error e => exact (h1.comp h2).err
                 | ok _ =>
                   simp only
-                  have h12 : Fr A s s2 (resIdsKV (Except.ok vals)) :=
+                  have h12 : Fr A s s2 (resIds (Except.ok pk)) :=
                     (h1.carry h2.err).weaken (fun _ h => h) (fun i hi => by simpa using hi)
                   exact h12.comp (hb s2)
-    · exact initWith_fr (conv E {} fuelDefault) ro A E target ks xs hx
-        (fun t w hw s => conv_fr E A hleak fuelDefault _ t w hw s) hro hleak s
+    · exact initWith_fr (guardL L (conv L E {} fuelDefault)) ro A E target ks xs hx
+        (fun t w hw s => guardL_fr L _ A t w s (conv_fr L E A hleak fuelDefault _ t w hw s)) hro hleak s
 
 /-! ### in-place writes -/
 
@@ -1146,29 +1360,38 @@ theorem writeL_eq_self (i : Nat) (f : Kind → List String → List Val → Opti
     simp [writeL, write_eq_self i f v h.1, writeL_eq_self i f vs h.2]
 end
 
+/-- a write that puts into the object, besides what it held, only objects from `S` -/
+def AddsOnly (S : List Nat) (f : Kind → List String → List Val → Option (List String × List Val)) : Prop :=
+  ∀ k ks xs ks' xs', f k ks xs = some (ks', xs') → ∀ j ∈ mutIdsL xs', j ∈ mutIdsL xs ∨ j ∈ S
+
 /-- a write that only puts atoms (or nothing) into the object -/
 def AddsNoIds (f : Kind → List String → List Val → Option (List String × List Val)) : Prop :=
   ∀ k ks xs ks' xs', f k ks xs = some (ks', xs') → ∀ j ∈ mutIdsL xs', j ∈ mutIdsL xs
 
+theorem addsNoIds_only {f : Kind → List String → List Val → Option (List String × List Val)} (h : AddsNoIds f) :
+    AddsOnly [] f := fun k ks xs ks' xs' he j hj => Or.inl (h k ks xs ks' xs' he j hj)
+
 mutual
-theorem write_ids_sub (i : Nat) (f : Kind → List String → List Val → Option (List String × List Val))
-    (hf : AddsNoIds f) (v : Val) : ∀ j ∈ (v.write i f).mutIds, j ∈ v.mutIds := by
+theorem write_ids_sub' (S : List Nat) (i : Nat) (f : Kind → List String → List Val → Option (List String × List Val))
+    (hf : AddsOnly S f) (v : Val) : ∀ j ∈ (v.write i f).mutIds, j ∈ v.mutIds ∨ j ∈ S := by
   match v with
-  | .none => simp [Val.write]
-  | .int _ => simp [Val.write]
-  | .str _ => simp [Val.write]
+  | .none => intro j hj; simp [Val.write, Val.mutIds] at hj
+  | .int _ => intro j hj; simp [Val.write, Val.mutIds] at hj
+  | .str _ => intro j hj; simp [Val.write, Val.mutIds] at hj
   | .node a k ks xs =>
-    have ih := writeL_ids_sub i f hf xs
+    have ih := writeL_ids_sub' S i f hf xs
     intro j hj
     simp only [Val.write] at hj
-    have hsub : ∀ j, j ∈ (Val.node a k ks (writeL i f xs)).mutIds → j ∈ (Val.node a k ks xs).mutIds := by
+    have hsub : ∀ j, j ∈ (Val.node a k ks (writeL i f xs)).mutIds → j ∈ (Val.node a k ks xs).mutIds ∨ j ∈ S := by
       intro j hj
       cases hk : k.mutable with
       | true =>
         simp only [Val.mutIds, hk, if_true] at hj ⊢
         rcases List.mem_cons.mp hj with h | h
-        · simp [h]
-        · exact List.mem_cons_of_mem _ (ih j h)
+        · left; simp [h]
+        · rcases ih j h with h' | h'
+          · exact Or.inl (List.mem_cons_of_mem _ h')
+          · exact Or.inr h'
       | false =>
         simp only [Val.mutIds, hk] at hj ⊢
         exact ih j (by simpa using hj)
@@ -1182,21 +1405,36 @@ theorem write_ids_sub (i : Nat) (f : Kind → List String → List Val → Optio
         rw [hfe] at hj
         simp only at hj
         rcases mutIds_node_sub hj with h | h
-        · simp [Val.mutIds, hk, h]
-        · exact mutIdsL_sub_node (ih j (hf _ _ _ _ _ hfe j h))
+        · left; simp [Val.mutIds, hk, h]
+        · rcases hf _ _ _ _ _ hfe j h with h' | h'
+          · rcases ih j h' with h'' | h''
+            · exact Or.inl (mutIdsL_sub_node h'')
+            · exact Or.inr h''
+          · exact Or.inr h'
     · simp only [hc] at hj
       exact hsub j hj
-theorem writeL_ids_sub (i : Nat) (f : Kind → List String → List Val → Option (List String × List Val))
-    (hf : AddsNoIds f) (xs : List Val) : ∀ j ∈ mutIdsL (writeL i f xs), j ∈ mutIdsL xs := by
+theorem writeL_ids_sub' (S : List Nat) (i : Nat) (f : Kind → List String → List Val → Option (List String × List Val))
+    (hf : AddsOnly S f) (xs : List Val) : ∀ j ∈ mutIdsL (writeL i f xs), j ∈ mutIdsL xs ∨ j ∈ S := by
   match xs with
-  | [] => simp [writeL]
+  | [] => intro j hj; simp [writeL, mutIdsL] at hj
   | v :: vs =>
     intro j hj
     simp only [writeL, mutIdsL, List.mem_append] at hj ⊢
     rcases hj with h | h
-    · exact Or.inl (write_ids_sub i f hf v j h)
-    · exact Or.inr (writeL_ids_sub i f hf vs j h)
+    · rcases write_ids_sub' S i f hf v j h with h' | h'
+      · exact Or.inl (Or.inl h')
+      · exact Or.inr h'
+    · rcases writeL_ids_sub' S i f hf vs j h with h' | h'
+      · exact Or.inl (Or.inr h')
+      · exact Or.inr h'
 end
+
+theorem write_ids_sub (i : Nat) (f : Kind → List String → List Val → Option (List String × List Val))
+    (hf : AddsNoIds f) (v : Val) : ∀ j ∈ (v.write i f).mutIds, j ∈ v.mutIds := by
+  intro j hj
+  rcases write_ids_sub' [] i f (addsNoIds_only hf) v j hj with h | h
+  · exact h
+  · simp at h
 
 /-! ### writes applied to a world -/
 
@@ -1255,12 +1493,13 @@ theorem writeAll_roots_eq (w : World) (i : Nat) (f : Kind → List String → Li
 theorem writeAll_next (w : World) (i : Nat) (f : Kind → List String → List Val → Option (List String × List Val)) :
     (w.writeAll i f).next = w.next := rfl
 
-theorem World.ext' {a b : World} (h1 : a.env = b.env) (h2 : a.next = b.next) (h3 : a.roots = b.roots) : a = b := by
+theorem World.ext' {a b : World} (h1 : a.env = b.env) (h2 : a.next = b.next) (h3 : a.roots = b.roots)
+    (h4 : a.proc = b.proc) : a = b := by
   cases a; cases b; simp_all
 
 theorem writeAll_eq_self (w : World) (i : Nat) (f : Kind → List String → List Val → Option (List String × List Val))
     (h1 : i ∉ w.env.declIds) (h2 : i ∉ w.rootIds) : w.writeAll i f = w :=
-  World.ext' (writeAll_env_eq w i f h1) rfl (writeAll_roots_eq w i f h2)
+  World.ext' (writeAll_env_eq w i f h1) rfl (writeAll_roots_eq w i f h2) rfl
 
 theorem applyWrites_eq_self (w : World) (ws : List Nat)
     (h : ∀ i ∈ ws, i ∉ w.env.declIds ∧ i ∉ w.rootIds) : w.applyWrites ws = w := by
@@ -1272,8 +1511,8 @@ theorem applyWrites_eq_self (w : World) (ws : List Nat)
     rw [this]
     exact ih (fun j hj => h j (List.mem_cons_of_mem _ hj))
 
-theorem writeAll_rootIds_sub (w : World) (i : Nat) (f : Kind → List String → List Val → Option (List String × List Val))
-    (hf : AddsNoIds f) : ∀ j ∈ (w.writeAll i f).rootIds, j ∈ w.rootIds := by
+theorem writeAll_rootIds_sub' (S : List Nat) (w : World) (i : Nat) (f : Kind → List String → List Val → Option (List String × List Val))
+    (hf : AddsOnly S f) : ∀ j ∈ (w.writeAll i f).rootIds, j ∈ w.rootIds ∨ j ∈ S := by
   intro j hj
   obtain ⟨v, hv, hjv⟩ := mem_mutIdsL.mp hj
   simp only [World.rootVals, World.writeAll, List.mem_filterMap, List.mem_map] at hv
@@ -1282,7 +1521,16 @@ theorem writeAll_rootIds_sub (w : World) (i : Nat) (f : Kind → List String →
   | none => simp at hr0e; subst hr0e; simp at hre
   | some v0 =>
     simp at hr0e; subst hr0e; simp at hre; subst hre
-    exact rootIds_of_root hr0 j (write_ids_sub i f hf v0 j hjv)
+    rcases write_ids_sub' S i f hf v0 j hjv with h | h
+    · exact Or.inl (rootIds_of_root hr0 j h)
+    · exact Or.inr h
+
+theorem writeAll_rootIds_sub (w : World) (i : Nat) (f : Kind → List String → List Val → Option (List String × List Val))
+    (hf : AddsNoIds f) : ∀ j ∈ (w.writeAll i f).rootIds, j ∈ w.rootIds := by
+  intro j hj
+  rcases writeAll_rootIds_sub' [] w i f (addsNoIds_only hf) j hj with h | h
+  · exact h
+  · simp at h
 
 /-! ### the caller's writes insert atoms only -/
 
@@ -1317,26 +1565,41 @@ theorem delKV_ids (k : String) : ∀ (ks : List String) (xs : List Val),
       · exact Or.inl h
       · exact Or.inr (delKV_ids k as xs j h)
 
-theorem act_addsNoIds (act : Act)
-    (h : match act with | .append v => v.mutIds = [] | .add v => v.mutIds = [] | .setkey _ v => v.mutIds = []) :
-    AddsNoIds act.apply := by
+theorem dropLast_ids_sub (xs : List Val) : ∀ j ∈ mutIdsL xs.dropLast, j ∈ mutIdsL xs := by
+  intro j hj
+  obtain ⟨v, hv, h⟩ := mem_mutIdsL.mp hj
+  exact mem_mutIdsL.mpr ⟨v, List.dropLast_subset xs hv, h⟩
+
+/-- a caller's write puts into the target only the objects of the value it inserts -/
+theorem act_addsOnly (act : Act) : AddsOnly act.ids act.apply := by
   intro k ks xs ks' xs' he j hj
   unfold Act.apply at he
   split at he
   · simp only [Option.some.injEq, Prod.mk.injEq] at he
     obtain ⟨_, rfl⟩ := he
-    simp only at h
-    simpa [mutIdsL_append, mutIdsL, h] using hj
+    simpa [mutIdsL_append, mutIdsL, Act.ids] using hj
   · simp only [Option.some.injEq, Prod.mk.injEq] at he
     obtain ⟨_, rfl⟩ := he
-    simp only at h
     split at hj
-    · exact hj
-    · simpa [mutIdsL_append, mutIdsL, h] using hj
+    · exact Or.inl hj
+    · simpa [mutIdsL_append, mutIdsL, Act.ids] using hj
   · simp only [Option.some.injEq] at he
-    simp only at h
     have := setKV_ids _ _ _ _ j (by rw [he]; exact hj)
-    simpa [h] using this
+    simpa [Act.ids] using this
+  · simp only [Option.some.injEq, Prod.mk.injEq] at he
+    obtain ⟨_, rfl⟩ := he
+    simp [mutIdsL] at hj
+  · simp only [Option.some.injEq, Prod.mk.injEq] at he
+    obtain ⟨_, rfl⟩ := he
+    simp [mutIdsL] at hj
+  · simp only [Option.some.injEq, Prod.mk.injEq] at he
+    obtain ⟨_, rfl⟩ := he
+    simp [mutIdsL] at hj
+  · simp only [Option.some.injEq, Prod.mk.injEq] at he
+    obtain ⟨_, rfl⟩ := he
+    exact Or.inl (dropLast_ids_sub _ j hj)
+  · simp only [Option.some.injEq] at he
+    exact Or.inl (delKV_ids _ _ _ j (by rw [he]; exact hj))
   · simp at he
 
 theorem setItemF_ok (fname : String) (v : Val) (hv : v.mutIds = []) : AddsNoIds (setItemF fname v) := by
@@ -1377,10 +1640,10 @@ theorem setattrWrites_ok (d : Decl) (fname : String) (v : Val) (hv : v.mutIds = 
   intro p hp
   unfold setattrWrites at hp
   split at hp
-  · rename_i i c ks a aks avs xs0
-    have hi : i ∈ (Val.node i (Kind.inst c) ks (Val.node a Kind.dict aks avs :: xs0)).mutIds := by
+  · rename_i i c b ks a aks avs xs0
+    have hi : i ∈ (Val.node i (Kind.inst c b) ks (Val.node a Kind.dict aks avs :: xs0)).mutIds := by
       simp [Val.mutIds, Kind.mutable, Kind.base]
-    have ha : a ∈ (Val.node i (Kind.inst c) ks (Val.node a Kind.dict aks avs :: xs0)).mutIds := by
+    have ha : a ∈ (Val.node i (Kind.inst c b) ks (Val.node a Kind.dict aks avs :: xs0)).mutIds := by
       simp [Val.mutIds, Kind.mutable, Kind.base, mutIdsL]
     simp only at hp
     split at hp
@@ -1402,11 +1665,11 @@ theorem schemaCopy_fr (v : Val) (s : St) :
   unfold schemaCopy
   split
   · rename_i j k ks a aks avs xs s0
-    refine ⟨by simp, ?_, ?_⟩
+    simp only [mk, fill, Bool.false_eq_true, ↓reduceIte]
+    refine ⟨by simp; omega, ?_, ?_⟩
     · intro i hi
       simp only [List.mem_cons] at hi
-      rcases hi with h | h | h
-      · right; simp; omega
+      rcases hi with rfl | h
       · right; simp; omega
       · exact Or.inl h
     · intro i hi
@@ -1427,9 +1690,9 @@ theorem schemaCopy_fr (v : Val) (s : St) :
           exact Or.inr h
   · exact Fr.refl (by simp [resIds])
 
-theorem setattrWrites_targets (d : Decl) (fname : String) (v : Val) (i k : Nat) (ks : List String) (a : Nat)
+theorem setattrWrites_targets (d : Decl) (fname : String) (v : Val) (i k : Nat) (b : Bool) (ks : List String) (a : Nat)
     (aks : List String) (avs xs : List Val) :
-    ∀ p ∈ setattrWrites d fname v (.node i (.inst k) ks (.node a .dict aks avs :: xs)), p.1 = i ∨ p.1 = a := by
+    ∀ p ∈ setattrWrites d fname v (.node i (.inst k b) ks (.node a .dict aks avs :: xs)), p.1 = i ∨ p.1 = a := by
   intro p hp
   simp only [setattrWrites] at hp
   split at hp
